@@ -101,16 +101,17 @@ type scn struct {
 	envSlow  bool   // a timeout expired although the peer of that attempt answers promptly: the machine was too slow
 	discSent bool
 
-	svc    *client.Service
-	cfg    *client.Config
-	apiMu  sync.Mutex
-	futMu  sync.RWMutex
-	nfut   int
-	futSt  []string
-	bodies []body
-	errCb  int
-	fails  []string
-	wg     sync.WaitGroup
+	svc     *client.Service
+	cfg     *client.Config
+	apiMu   sync.Mutex
+	futMu   sync.RWMutex
+	nfut    int
+	futSt   []string
+	bodies  []body
+	callDur []time.Duration // how long each command call took
+	errCb   int
+	fails   []string
+	wg      sync.WaitGroup
 }
 
 func newScn(name string) *scn {
@@ -468,7 +469,37 @@ func (s *scn) stop(clear bool) bool {
 		s.mu.Unlock()
 	}
 	s.futMu.Unlock()
+	if ok && clear {
+		// "cancels all pending futures when asked to": every future returned before this Stop(true) is resolved now
+		s.mu.Lock()
+		n := s.nfut
+		s.mu.Unlock()
+		if left := s.waitResolved(n, 3*time.Second); left > 0 {
+			s.direct("stop", fmt.Sprintf("%d-futures-returned-before-a-Stop(true)-are-still-pending-3s-after-it-returned", left))
+		}
+	}
 	return ok
+}
+
+// waitResolved waits until the watchers of futures 0..n-1 have all reported; returns how many have not
+func (s *scn) waitResolved(n int, bound time.Duration) int {
+	deadline := time.Now().Add(bound)
+	t := time.AfterFunc(bound+time.Millisecond, func() { s.mu.Lock(); s.cond.Broadcast(); s.mu.Unlock() })
+	defer t.Stop()
+	s.mu.Lock()
+	defer s.mu.Unlock()
+	for {
+		left := 0
+		for i := 0; i < n && i < len(s.futSt); i++ {
+			if s.futSt[i] == "pending" {
+				left++
+			}
+		}
+		if left == 0 || time.Now().After(deadline) {
+			return left
+		}
+		s.cond.Wait()
+	}
 }
 
 func (s *scn) cmd(b body) int {
@@ -479,6 +510,7 @@ func (s *scn) cmd(b body) int {
 	s.nfut++
 	s.futSt = append(s.futSt, "pending")
 	s.bodies = append(s.bodies, b)
+	s.callDur = append(s.callDur, 0)
 	s.mu.Unlock()
 	s.ev("cmdcall %d %s", n, b.text())
 	t0 := time.Now()
@@ -519,6 +551,9 @@ func (s *scn) cmd(b body) int {
 		return n
 	}
 	el := time.Since(t0)
+	s.mu.Lock()
+	s.callDur[n] = el
+	s.mu.Unlock()
 	cancelledAtReturn := f.Wait(2*time.Millisecond) == future.ErrCanceled
 	if el >= s.qtmo && cancelledAtReturn {
 		s.ev("qtimeout %d", n)
